@@ -7,7 +7,7 @@ from pyvc import native
 def run(rep, tier, seed):
     # pars() answers each of its three modes from that mode's own memo slot; coordinate accessors agree with .loc
     memo = [s for s in k_cache.specs('C06') if s.name == 'memo.pars' or s.name.startswith('coords.')]
-    verify_all(rep, k_bistr.specs('C06') + memo)
+    verify_all(rep, k_bistr.specs('C06') + memo + k_cache.loc_arguments_specs('C06'))
     rep.assumptions.append('no Python string is longer than sys.maxsize bytes (bound on the values stored in bistr\'s '
                            'fixed-width arrays; the only machine-width arithmetic in the library)')
     sec = native.run('b_read', 'main', {'props': ['C06'], 'tier': tier, 'seed': seed}, timeout=7200)
